@@ -1541,7 +1541,8 @@ def alpha_rename(stmt, rnd, mode="rename", pool=()):
     elif mode == "add_alias":
         for sel, rel in rels:
             if rel.kind == "base" and not rel.alias and rnd.random() < 0.7:
-                if sum(1 for _, r in rels if r.kind == "base" and r.name == rel.name) == 1:
+                # the bare name must denote this relation only: no second un-aliased table of that name (an aliased namesake is hidden behind its alias)
+                if sum(1 for _, r in rels if r.kind == "base" and r.name == rel.name and not r.alias) == 1:
                     mapping[rel.name] = fresh({u.lower() for u in used})
     # apply
     for _, rel in rels:
